@@ -64,8 +64,26 @@ def has_quote(v):
     return False
 
 
+def _reshare(v):
+    """Make equal sub-containers of a value one shared object (what a YAML alias or re-used Python object gives)."""
+    pool = {}
+
+    def go(x):
+        if isinstance(x, list):
+            y = [go(e) for e in x]
+        elif isinstance(x, dict):
+            y = {k: go(e) for k, e in x.items()}
+        else:
+            return x
+        key = repr(canon(y))
+        return pool.setdefault(key, y)
+    return go(v)
+
+
 def eval_values(case, rec):
     v, v2 = case['v'], case['v2']
+    if case.get('shared'):
+        v, v2 = _reshare(v), _reshare(v2)
     if canon(v) == canon(v2):
         rec.exclude('mutation-was-identity')
         return
@@ -88,7 +106,8 @@ def eval_values(case, rec):
         if not equal and p.repr is None:
             raise Violation('non-default-value-elided', {'default': dflt, 'value': val})
     d = max(_depth(v), _depth(v2))
-    rec.case(case, nontrivial=d >= 1, classes=['value-level', 'alphabet:' + case['alphabet'], f'depth>={min(d, 3)}'],
+    rec.case(case, nontrivial=d >= 1, classes=['value-level', 'alphabet:' + case['alphabet'], f'depth>={min(d, 3)}'] + (
+        ['shared-container-objects'] if case.get('shared') else []),
              key=hyp.digest([canon(v), canon(v2)]))
 
 
@@ -108,8 +127,23 @@ def value_pairs(draw, alphabet):
     mode = draw(st.integers(0, 3))
     if mode <= 1:
         v2 = mutate._mutate_deep(draw, v)
+    elif mode == 2 and draw(st.booleans()):
+        # the SAME container object referenced several times inside one value (YAML anchors/aliases, re-used Python
+        # objects): [X, Y, X] vs [X, Y, Y]
+        cont = st.one_of(st.lists(values.scalars(text), max_size=3), st.dictionaries(text, values.scalars(text), max_size=2))
+        X, Y = draw(cont), draw(cont)
+        shape = draw(st.sampled_from(['list', 'dict', 'nested']))
+        if shape == 'list':
+            v, v2 = [X, Y, X], [X, Y, Y]
+        elif shape == 'dict':
+            v, v2 = {'a': X, 'b': Y, 'c': X}, {'a': X, 'b': Y, 'c': Y}
+        else:
+            v, v2 = [[X], {'k': Y}, [X]], [[X], {'k': Y}, [Y]]
+        return {'values': True, 'alphabet': alphabet, 'v': v, 'v2': v2, 'shared': shape}
     elif mode == 2:
         v2 = draw(base)
+    elif False:
+        pass
     else:
         # adversarial: a string built from the other value's representation
         r = model.frozen_value_repr(v)
@@ -185,8 +219,8 @@ FINDINGS = {
 
 def plan(tier):
     q = tier == 'quick'
-    shards = [{'kind': 'values', 'alphabet': 'quote-free', 'examples': 5000 if q else 300000} for _ in range(4 if q else 6)]
-    shards += [{'kind': 'values', 'alphabet': 'full', 'examples': 5000 if q else 300000} for _ in range(2 if q else 4)]
+    shards = [{'kind': 'values', 'alphabet': 'quote-free', 'examples': 5000 if q else 120000} for _ in range(4 if q else 6)]
+    shards += [{'kind': 'values', 'alphabet': 'full', 'examples': 5000 if q else 120000} for _ in range(2 if q else 4)]
     shards += [{'kind': 'chain', 'examples': 200 if q else 8000} for _ in range(8 if q else 6)]
     return shards
 
